@@ -67,6 +67,27 @@ def check_graph(case, sub="graphs"):
     if hm2 != max(want + [0]):
         raise Violation(sub, "height-max", "height_max", "graph", "%s vs %s" % (hm2, max(want)))
     cl = gg.classes(n, mask)
+    if n >= 2:
+        # the same graph object, edited in place (one edge toggled), asked again: the answer is that of the graph as it is now
+        nodes = list(g.nodes)
+        a, b = case.get("toggle", [0, 1])
+        a, b = a % n, b % n
+        if a == b:
+            b = (a + 1) % n
+        k = rg.pairs(n).index((min(a, b), max(a, b)))
+        mask2 = mask ^ (1 << k)
+        if g.has_edge(nodes[a], nodes[b]):
+            g.remove_edge(nodes[a], nodes[b])
+        else:
+            g.add_edge(nodes[a], nodes[b])
+        want2 = rg.cut_ranks(n, mask2)
+        hd2 = guarded(sub, "graph:edited_in_place", height.height_dict, graph=g)
+        if [hd2[i] for i in range(n)] != want2:
+            raise Violation(sub, "height-value", "height_dict", "graph:edited_in_place", "after toggling an edge of the same graph object: %s, cut ranks %s" % (hd2, want2))
+        hm3 = guarded(sub, "graph:edited_in_place", height.height_max, graph=g)
+        if hm3 != max(want2 + [0]):
+            raise Violation(sub, "height-max", "height_max", "graph:edited_in_place", "%s vs %s" % (hm3, max(want2 + [0])))
+        cl.append("asked_again_after_edit")
     return Info(nontrivial=(max(want + [0]) >= 2 or non_monotone(want)), classes=cl)
 
 
